@@ -36,6 +36,37 @@ impl<'a> Judge<'a> {
     }
 }
 
+/// ExpandPair events turned into two sequential expansions (all of them, or only the k-th)
+fn unpair(events: &[Event], only: Option<usize>) -> Vec<Event> {
+    let mut out = Vec::new();
+    let mut k = 0;
+    for e in events {
+        match e {
+            Event::ExpandPair { a_tid, a_input, b_tid, b_input, .. } if only.map(|o| o == k).unwrap_or(true) => {
+                out.push(Event::Expand { tid: *a_tid, input: *a_input });
+                out.push(Event::Expand { tid: *b_tid, input: *b_input });
+                k += 1;
+            },
+            Event::ExpandPair { .. } => {
+                out.push(e.clone());
+                k += 1;
+            },
+            _ => out.push(e.clone()),
+        }
+    }
+    out
+}
+
+/// every thread an event names has been spawned (or is the main thread)
+fn threads_ok(events: &[Event]) -> bool {
+    let spawned = |t: u32| t == 0 || events.iter().any(|s| matches!(s, Event::Spawn { tid } if *tid == t));
+    events.iter().all(|e| match e {
+        Event::Expand { tid, .. } | Event::ExpandTokens { tid, .. } | Event::Perturb { tid, .. } | Event::Order { tid, .. } | Event::OrderAt { tid, .. } => spawned(*tid),
+        Event::ExpandPair { a_tid, b_tid, .. } => *a_tid != 0 && *b_tid != 0 && spawned(*a_tid) && spawned(*b_tid),
+        _ => true,
+    })
+}
+
 fn has_perturb(h: &HostCfg) -> bool {
     h.events.iter().any(|e| matches!(e, Event::Perturb { .. }))
 }
@@ -57,6 +88,12 @@ pub fn fault_mask(mw: &MiniWorld, target: u32) -> u32 {
     }
     if has_order(&mw.bad) {
         m |= F_ORDER
+    }
+    if mw.bad.events.iter().any(|e| matches!(e, Event::ExpandPair { .. })) {
+        m |= crate::plan::F_CONCURRENT
+    }
+    if mw.bad.events.iter().any(|e| matches!(e, Event::ExpandTokens { .. })) {
+        m |= crate::plan::F_SPANS
     }
     // history: anything before the (last) expansion of the target besides Order/Spawn
     // history: the number of expansions before the target differs between the two hosts
@@ -196,7 +233,21 @@ pub fn minimise(env: &Env, start: MiniWorld, item: Option<Item>, d0: Divergence,
         c.bad.events.retain(|e| !matches!(e, Event::Perturb { .. }));
         attempt!("drop heap perturbations", c);
     }
-    if has_threads(&cur.bad) {
+    if cur.bad.events.iter().any(|e| matches!(e, Event::ExpandPair { .. })) {
+        // no concurrency: every pair becomes two expansions one after the other
+        let mut c = cur.clone();
+        c.bad.events = unpair(&cur.bad.events, None);
+        if !attempt!("run the concurrent pairs sequentially", c) {
+            // keep only the pairs that matter
+            let n_pairs = cur.bad.events.iter().filter(|e| matches!(e, Event::ExpandPair { .. })).count();
+            for k in (0..n_pairs).rev() {
+                let mut c = cur.clone();
+                c.bad.events = unpair(&cur.bad.events, Some(k));
+                attempt!(format!("run concurrent pair #{} sequentially", k), c);
+            }
+        }
+    }
+    if has_threads(&cur.bad) && !cur.bad.events.iter().any(|e| matches!(e, Event::ExpandPair { .. })) {
         let mut c = cur.clone();
         c.bad.events.retain(|e| !matches!(e, Event::Spawn { .. }));
         let mut seen_order0 = false;
@@ -222,7 +273,8 @@ pub fn minimise(env: &Env, start: MiniWorld, item: Option<Item>, d0: Divergence,
     {
         // history: only the target expansion (keeping thread + order set-up for its thread)
         let last = cur.bad.events.iter().rposition(|e| matches!(e, Event::Expand { input, .. } | Event::ExpandTokens { input, .. } if *input == target));
-        if let Some(last) = last {
+        let in_pair = cur.bad.events.iter().any(|e| matches!(e, Event::ExpandPair { a_input, b_input, .. } if *a_input == target || *b_input == target));
+        if let (Some(last), false) = (last, in_pair) {
             let tid = match &cur.bad.events[last] {
                 Event::Expand { tid, .. } | Event::ExpandTokens { tid, .. } => *tid,
                 _ => 0,
@@ -272,7 +324,7 @@ pub fn minimise(env: &Env, start: MiniWorld, item: Option<Item>, d0: Divergence,
                 }
                 let end = (start + chunk).min(evs.len());
                 let mut c = cur.clone();
-                let keep = |e: &Event| matches!(e, Event::Spawn { .. } | Event::Order { .. }) || matches!(e, Event::Expand { input, .. } | Event::ExpandTokens { input, .. } if *input == target);
+                let keep = |e: &Event| matches!(e, Event::Spawn { .. } | Event::Order { .. }) || matches!(e, Event::Expand { input, .. } | Event::ExpandTokens { input, .. } if *input == target) || matches!(e, Event::ExpandPair { a_input, b_input, .. } if *a_input == target || *b_input == target);
                 let ev: Vec<Event> = evs.iter().enumerate().filter(|(i, e)| *i < start || *i >= end || keep(e)).map(|(_, e)| e.clone()).collect();
                 if ev.len() == evs.len() {
                     start = end;
@@ -304,10 +356,7 @@ pub fn minimise(env: &Env, start: MiniWorld, item: Option<Item>, d0: Divergence,
             let mut c = cur.clone();
             c.bad.events.remove(i);
             // a thread's Spawn must stay if the thread is still used
-            let ok = c.bad.events.iter().all(|e| match e {
-                Event::Expand { tid, .. } | Event::ExpandTokens { tid, .. } | Event::Perturb { tid, .. } | Event::Order { tid, .. } => *tid == 0 || c.bad.events.iter().any(|s| matches!(s, Event::Spawn { tid: t } if t == tid)),
-                _ => true,
-            });
+            let ok = threads_ok(&c.bad.events);
             if !ok {
                 continue;
             }
